@@ -309,6 +309,9 @@ def main(prop, tier, seed, replay):
         obligations.append((f"coq: pinned statements of {prop} re-checked", ok_pin, "" if ok_pin else pout[-1500:]))
         for t in thms:
             obligations.append((f"theorem {t['name']}", ok_pin, t["assumptions"]))
+    if ok_coq and tier == "thorough" and not replay:
+        ok_chk, chk_detail = vlib.coqchk(prop, log)
+        obligations.append((f"coqchk: independent re-check of Properties/{prop}.vo and its dependencies, no axioms", ok_chk, chk_detail))
     ok_drv, drv_key = vlib.build_driver(log)
     obligations.append(("extraction: extracted model compiles", ok_drv, ""))
     exes = {}
